@@ -80,7 +80,14 @@ RULE = ("(a) one `sites` case: translator/sites.py scans every .py/.pyx under en
         "load_as_concatenated, concatenate_trjs, msm.bootstrap (global NumPy generator re-seeded before every call) with "
         "1, 2, 4 (and 3) worker processes, 2-3 repetitions each, on inputs whose first block of work is by far the most "
         "expensive (block counts where early states have the most partners; first trajectory file 20-90x longer than "
-        "the others): digests of every result equal; arguments unchanged.")
+        "the others): digests of every result equal; arguments unchanged; second wave: work lists of 5, 6, 7, 11 (1..6 processes) "
+        "and 29, 34 (1, 5, 6, 16 processes) entries for baysean_prune, calcDMat and bace (1, 5, 6) -- lengths the process "
+        "count does not divide, where the routines cut more blocks than there are processes. (k) `kcti` cases (4 quick / 16 thorough): "
+        "kcenters(use_triangle_inequality=True) on 1000-5000 integer-valued frames in 3-8 well separated blobs (most frames are skipped by the "
+        "shortcut), 8-12 centers, with a caller-supplied Manhattan metric that returns float32 and, while it works, allocates, fills and frees an "
+        "8n-byte scratch vector; the call is repeated with the scratch (and 28 blocks freed just before the call) holding nothing / NaN / -1 / 0 / 7.5, "
+        "in the long-lived child and in a fresh one: centers, distances and assignments of all 14 runs equal; non-trivial := the metric was asked "
+        "for a proper subset of the frames at least once.")
 
 TRUSTED = ["translator/sites.py: the `where=` scan (ast for .py, token scan + per-call parse for .pyx), its tables of ufunc / "
            "reduction / allocator names, and the rule that a where= passed through **kwargs or a partial is not seen",
@@ -1616,6 +1623,39 @@ def _gen_nproc(rng, routine, tier):
     return c
 
 
+# round 3s (second wave): block counts that the process count does not divide.  The bace routines cut their work list
+# of L entries into blocks of L // k entries for k worker processes; whenever L % (L // k) > 3 or L % k > L // k there
+# are MORE blocks than processes (a short last one).  L = 5, 6, 7, 11 do that for k <= 4 already, L = 29, 34 for k = 5, 6
+# (and 16); every run deals all six work-list lengths to baysean_prune, calcDMat and bace.
+NPROC_ODD_LENGTHS = [5, 6, 7, 11, 29, 34]
+NPROC_ODD_COUNTS = {"small": [1, 2, 3, 4, 5, 6], "large": [1, 5, 6, 16]}
+
+
+def _bace_blocks(L, k):
+    """number of blocks the bace routines cut a work list of L entries into for k > 1 worker processes"""
+    k = min(L, k)
+    step = L // k
+    end = L if L % step > 3 else L - step
+    return len(range(0, end, step))
+
+
+def _gen_nproc_odd(rng, routine, L, tier):
+    """the routine's work list has exactly L entries: baysean_prune: L states; calcDMat: L + 1 well-connected states
+    (one work item per state but the last); bace: L states (prune) then L - 1 work items"""
+    procs = list(NPROC_ODD_COUNTS["small" if L <= 11 else "large"])
+    if routine == "bace.bace":
+        procs = [k for k in procs if k != 16]
+    c = {"kind": "nproc", "routine": routine, "seed": rng.randrange(10 ** 6), "reps": 2,
+         "procs": procs, "odd": L, "fmt": rng.choice(["dense", "dense", "csr"]), "chunk": 100, "weak": 0}
+    if routine == "bace.calcDMat":
+        c.update(n=L + 1)
+    elif routine == "bace.bace":
+        c.update(n=L, merges=rng.choice([2, 3]) if L > 5 else 2)
+    else:
+        c.update(n=L, weak=rng.choice([0, 0, 2]) if L > 11 else 0)
+    return c
+
+
 def _nproc_counts(case):
     """block-structured symmetric counts; every state has partners all over the matrix, so the states early in the
     list have the most (s, j > s) pairs to score: the first block of work is the most expensive"""
@@ -1740,6 +1780,103 @@ def _oracle_nproc(c, r):
     return out
 
 
+# ============================================================================ round 3s (second wave): k-centers shortcut
+# kcenters(..., use_triangle_inequality=True) recomputes, in every iteration, only the distances of the frames that can
+# move to the new center; the vector it compares with the current distances must hold defined values for the others
+# too.  Probe: a few thousand integer-valued frames in well separated blobs (most frames are NOT recomputed), a
+# caller-supplied metric that returns single precision (as mdtraj's rmsd does: the temporaries of an iteration then
+# have another size than the 8n-byte distance vector) and that, while it works, allocates, fills and frees a scratch
+# vector of 8n bytes -- what the scratch holds has no influence on what the metric returns.  The same call is made
+# with several scratch contents (and the heap poisoned with the same content before the call): all results equal.
+KCTI_FILLS = [None, "nan", -1.0, 0.0, 7.5, "nan", -1.0]
+
+
+class _ScratchMetric:
+    """Manhattan distance between integer-valued frames, returned in single precision (exact)"""
+
+    def __init__(self, n, fill):
+        self.n, self.fill, self.partial = n, fill, 0
+
+    def __call__(self, X, y):
+        X = np.asarray(X, dtype=float)
+        if 1 < len(X) < self.n:
+            self.partial += 1
+        d = np.abs(X - np.asarray(y, dtype=float)).sum(axis=1).astype(np.float32)
+        if self.fill is not None:
+            scratch = np.full(self.n, self.fill, dtype=np.float64)
+            del scratch
+        return d
+
+
+def _gen_kcti(rng):
+    return {"kind": "kcti", "n": rng.choice([1000, 2000, 3000, 5000]), "blobs": rng.choice([3, 5, 8]), "k": rng.choice([8, 10, 12]),
+            "seed": rng.randrange(10 ** 6), "spread": rng.choice([2, 3, 6])}
+
+
+def _kcti_data(c):
+    rs = np.random.RandomState(c["seed"])
+    n = c["n"]
+    X = np.empty((n, 2))
+    X[:, 0] = 100 * rs.randint(0, c["blobs"], n) + rs.randint(-c["spread"], c["spread"] + 1, n)
+    X[:, 1] = rs.randint(-c["spread"], c["spread"] + 1, n)
+    return X
+
+
+def _execute_kcti(c):
+    import warnings
+    warnings.filterwarnings("ignore")
+    from enspara.cluster import kcenters as KC
+    X = _kcti_data(c)
+    x0 = X.copy()
+    n = c["n"]
+    out = {"runs": [], "fails": [], "partial": 0}
+    ref = None
+    for fill in KCTI_FILLS:
+        val = float("nan") if fill == "nan" else fill
+        m = _ScratchMetric(n, val)
+        try:
+            if val is not None:
+                blocks = [np.full(nb // 8, val) for nb in (8 * n, 4 * n, 8 * n + 8, 16 * n) for _ in range(7)]
+                del blocks
+            r = KC.kcenters(X, m, n_clusters=c["k"], use_triangle_inequality=True)
+            v = [np.asarray(r.center_indices), np.asarray(r.distances), np.asarray(r.assignments)]
+            got = {"digest": _digest(v)}
+        except Exception as ex:
+            v, got = None, {"err": type(ex).__name__, "msg": str(ex)[:100]}
+        out["runs"].append([str(fill), got.get("err", "value")])
+        out["partial"] = max(out["partial"], m.partial)
+        if ref is None:
+            ref = (fill, got, v)
+        elif {x: got[x] for x in got if x != "msg"} != {x: ref[1][x] for x in ref[1] if x != "msg"}:
+            f = {"fill": str(fill), "ref_fill": str(ref[0]), "got": got.get("err"), "ref": ref[1].get("err")}
+            if v is not None and ref[2] is not None:
+                f["centers"], f["ref_centers"] = [int(t) for t in v[0]], [int(t) for t in ref[2][0]]
+                f["assignments_differ"] = int(np.count_nonzero(v[2] != ref[2][2]))
+                f["min_distance"], f["ref_min_distance"] = float(np.min(v[1])), float(np.min(ref[2][1]))
+            out["fails"].append(f)
+    out["args_kept"] = bool(np.array_equal(X, x0))
+    out["fails"] = out["fails"][:3]
+    return out
+
+
+def _oracle_kcti(c, r):
+    if "err" in r:
+        return [("crash:kcenters-triangle-inequality", "k-centers shortcut probe: %s (case %s)" % (r, json.dumps(c)))]
+    out = []
+    what = ("kcenters(X, metric, n_clusters=%d, use_triangle_inequality=True) on %d integer-valued frames in %d blobs (seed %d, spread %d), "
+            "Manhattan metric returning float32" % (c["k"], c["n"], c["blobs"], c["seed"], c["spread"]))
+    for f in r["fails"]:
+        out.append(("heap-dependence:kcenters-triangle-inequality",
+                    "%s: when the metric's freed 8n-byte scratch vector (and the blocks freed before the call) held %s the call returned "
+                    "centers %s (%s assignments different, smallest distance %s); when they held %s: centers %s (smallest distance %s)%s"
+                    % (what, f["fill"], f.get("centers"), f.get("assignments_differ"), f.get("min_distance"), f["ref_fill"],
+                       f.get("ref_centers"), f.get("ref_min_distance"),
+                       "" if not (f.get("got") or f.get("ref")) else " [exceptions: %s / %s]" % (f.get("got"), f.get("ref")))))
+    if not r.get("args_kept", True):
+        out.append(("argument-mutated:kcenters", "%s changed its data argument" % what))
+    return out
+
+
 # ============================================================================ child processes
 class _Child:
     def __init__(self, threads, label):
@@ -1799,7 +1936,7 @@ def _child(label, threads):
 
 
 EXECUTORS = {"file": _execute_file, "bgrid": _execute_bgrid, "rahist": _execute_rahist, "thr": _execute_thr,
-             "nproc": _execute_nproc}
+             "nproc": _execute_nproc, "kcti": _execute_kcti}
 
 
 def _worker_main():
@@ -1940,6 +2077,15 @@ def generate(rng, tier):
         cases.append(_gen_rahist(rng))
     for k in range(len(NPROC_ROUTINES) if tier == "quick" else 4 * len(NPROC_ROUTINES)):
         cases.append(_gen_nproc(rng, NPROC_ROUTINES[k % len(NPROC_ROUTINES)], tier))
+    for rep in range(1 if tier == "quick" else 3):
+        deck = list(NPROC_ODD_LENGTHS)
+        rng.shuffle(deck)
+        for k, L in enumerate(deck):
+            cases.append(_gen_nproc_odd(rng, "bace.baysean_prune", L, tier))
+            cases.append(_gen_nproc_odd(rng, "bace.calcDMat", L, tier))
+            cases.append(_gen_nproc_odd(rng, "bace.bace", L, tier))
+    for _ in range(4 if tier == "quick" else 16):
+        cases.append(_gen_kcti(rng))
     thr = [_gen_thr(rng, tier) for _ in range(8 if tier == "quick" else 40)]
     for k, (routine, form) in enumerate([("joint_counts", "1d"), ("joint_counts", "col"), ("joint_counts", "self"),
                                          ("mi_matrix", "col")]):
@@ -2029,6 +2175,14 @@ def run_impl(c):
         return _run_wbr(c)
     if c["kind"] in ("bgrid", "rahist", "nproc"):
         return _child("t1", 1).call(c)
+    if c["kind"] == "kcti":
+        # in the long-lived child (a heap with a history) and in a fresh one
+        r1 = _child("t1", 1).call(c)
+        r2 = _child("young", 1).call(c)
+        if "err" in r1 or "err" in r2:
+            return {"err": r1.get("err") or r2.get("err"), "t1": r1, "young": r2}
+        return {"runs": r1["runs"] + r2["runs"], "fails": (r1["fails"] + r2["fails"])[:4], "partial": min(r1["partial"], r2["partial"]),
+                "args_kept": r1["args_kept"] and r2["args_kept"]}
     if c["kind"] == "thr":
         return {lab: _child(lab, n).call(c) for lab, n in THR_CHILDREN}
     res = {}
@@ -2168,6 +2322,8 @@ def oracle(c, r):
         return _oracle_rahist(c, r)
     if c["kind"] == "nproc":
         return _oracle_nproc(c, r)
+    if c["kind"] == "kcti":
+        return _oracle_kcti(c, r)
     if c["kind"] == "thr":
         return _oracle_thr(c, r)
     name = c["routine"]
@@ -2313,6 +2469,8 @@ def nontrivial(c, r):
         return all("runs" in r.get(lab, {}) and all("err" not in x for x in r[lab]["runs"]) for lab, _n in THR_CHILDREN)
     if c["kind"] == "nproc":
         return "err" not in r and len({k for k, _rep, how in r.get("runs", []) if how == "value"}) >= 2
+    if c["kind"] == "kcti":
+        return "err" not in r and r.get("partial", 0) > 0 and sum(1 for _f, how in r["runs"] if how == "value") >= 2
     return _ok_everywhere(r)
 
 
@@ -2384,7 +2542,26 @@ def tags(c, r):
             return ["nproc", "nproc-pool-unavailable"]
         t = ["nproc", "nproc:" + c["routine"]]
         t += ["nproc-compared-1-2-4-processes:" + c["routine"]] if nontrivial(c, r) else []
+        if c.get("odd") and nontrivial(c, r):
+            ok = {k for k, _rep, how in r["runs"] if how == "value"}
+            L = c["odd"]
+            more = [k for k in ok if k > 1 and _bace_blocks(L, k) > min(L, k)]
+            if more:
+                t.append("nproc-more-blocks-than-processes:" + c["routine"])
+            if {5, 6} & ok:
+                t.append("nproc-5-or-6-processes:" + c["routine"])
+            if 16 in ok:
+                t.append("nproc-16-processes")
         t += ["nproc-call-raises"] if any(how != "value" for _k, _rep, how in r["runs"]) else []
+        return t
+    if c["kind"] == "kcti":
+        if "err" in r:
+            return ["exception-or-crash"]
+        t = ["kcti"]
+        if nontrivial(c, r):
+            t.append("kcti-frames-skipped-by-the-shortcut")
+        if all(how == "value" for _f, how in r["runs"]):
+            t.append("kcti-all-heap-histories-returned")
         return t
     if c["kind"] == "rahist":
         if "err" in r:
@@ -2433,7 +2610,11 @@ ESSENTIAL_TAGS = (["sites-scan", "masked-site-guarded", "ufunc-out", "ufunc-noou
                      "wbr-cell-left-unwritten", "overwrite-probe-changed", "file-rewritten-at-same-path"]
                   + ["overwrite-probe:" + n for n in ROUTINES] + ["value:" + n for n in ("ra.load", "load_as_concatenated")]
                   + ["bgrid:" + b for b in BG_BUILDERS] + ["bgrid-every-combination-returned-a-value", "bgrid-prior-present-but-zero",
-                     "bgrid-prior-array-valued", "nproc", "rahist-rectangular-built-flat", "rahist-observed-after-append",
+                     "bgrid-prior-array-valued", "nproc", "nproc-more-blocks-than-processes:bace.baysean_prune",
+                     "nproc-more-blocks-than-processes:bace.calcDMat", "nproc-more-blocks-than-processes:bace.bace",
+                     "nproc-5-or-6-processes:bace.baysean_prune", "nproc-5-or-6-processes:bace.calcDMat",
+                     "nproc-5-or-6-processes:bace.bace", "nproc-16-processes", "kcti-frames-skipped-by-the-shortcut",
+                     "kcti-all-heap-histories-returned", "rahist-rectangular-built-flat", "rahist-observed-after-append",
                      "rahist-observed-after-setitem", "rahist-offsets-read-then-append-then-2d-lookup", "rahist-compared-with-fresh",
                      "rahist-compared-with-twin", "thr:joint_counts-1d", "thr:joint_counts-col", "thr:joint_counts-self",
                      "thr:mi_matrix-col", "threads-4", "threads-16"])
